@@ -322,6 +322,10 @@ static inline uint64_t cxx_str_bytes(uint64_t n) { return n + 1; }
   __CPROVER_ensures(__CPROVER_return_value.n < 0x100000000ul && __CPROVER_is_fresh(__CPROVER_return_value.p, __CPROVER_return_value.n + 1)) \
   { return str_from_n(s, cxx_strlen(s)); } \
   static inline str str_clone(str o) { return str_from_n(o.p, o.n); } \
+  static inline str cxx_path_filename(str o) \
+  { /* std::filesystem::path::filename() on POSIX: the text after the last '/' (empty for "", "/", "dir/") */ \
+    uint64_t b = 0; for (uint64_t __k = 0; __k < o.n; ++__k) if (o.p[__k] == '/') b = __k + 1; \
+    return str_from_n(o.p + b, o.n - b); } \
   static inline str str_filled(uint64_t n, char c) \
   { str r; r.p = (char *)cxx_alloc(cxx_str_bytes(n)); r.n = n; r.cap = n; for (uint64_t __k = 0; __k < n; ++__k) r.p[__k] = c; r.p[n] = 0; return r; } \
   static inline void str_clear(str *v) { v->n = 0; } \
@@ -348,6 +352,12 @@ static inline uint64_t cxx_str_bytes(uint64_t n) { return n + 1; }
     np[n] = 0; v->p = np; v->n = n; v->cap = n; } \
   static inline _Bool str_eq_cstr(str a, const char *s) \
   { uint64_t m = cxx_strlen(s); if (m != a.n) return 0; for (uint64_t __k = 0; __k < m; ++__k) if (a.p[__k] != s[__k]) return 0; return 1; } \
+  static inline char *str_erase_range(str *v, char *first, char *last) \
+  { if (first == last) return first; \
+    uint64_t a = (uint64_t)(first - v->p); uint64_t b = (uint64_t)(last - v->p); \
+    CXX_ASSERT(a <= b && b <= v->n, "erase range inside string"); \
+    for (uint64_t __k = b; __k < v->n; ++__k) v->p[a + (__k - b)] = v->p[__k]; \
+    v->n -= (b - a); return v->p + a; } \
   static inline void str_erase_pos(str *v, uint64_t pos, uint64_t cnt) \
   { if (pos > v->n) { __exc = EXC_out_of_range; return; } \
     uint64_t m = v->n - pos; if (cnt < m) m = cnt; \
